@@ -5,5 +5,12 @@ CHECKS = {
  'C11': ('fault_enumeration', 'crash-point enumeration: after every header update (explicit or automatic) the store is copied and parsed by an independent recovery reader; frames/params/prefix/eof compared with the model; differential run without updates for audio.unchanged', '3 C11'),
  'C03': ('exploration', 'storage-corruption faults (bit rot, torn/zeroed/misdirected sectors, field overwrites, truncation, junk) injected into valid images of every writable format, then seeded API histories over VIO / descriptor / path / FIFO routes under ASan, invariant hook and the simulated-I/O step budget', '3 C03'),
 }
+CHECKS.update({
+ 'C08': ('exploration', 'read/write-mode op histories (write, read, seek x whence x mode flag, truncate, header update, close/re-open) against a two-pointer sequential model with wildcard gap frames, on the simulated descriptor route so that truncation is real; final fresh read-only open compared with the model', '3 C08'),
+ 'C09': ('exploration', 'invalid calls injected at seeded points of valid histories: documented failure value, non-empty error text, side-effect-free state digest (hook) and unchanged store bytes; success leaves error 0; failed opens leave nothing behind (audit)', '3 C09'),
+ 'C07': ('exploration', 'one sample stream written under several schedules (call partitions, item/frame variants, explicit and automatic header updates) and at a jumped simulated clock: stores must be byte-identical except documented timestamp fields', '3 C07'),
+ 'C19': ('exploration', '2-8 cooperative client tasks, one handle each, interleaved call by call by a seeded scheduler (uniform, round-robin, bursty, starving); per-task transcript and final store equal the solo run; error state of other handles unchanged after every step', '3 C19'),
+ 'C14': ('exploration', 'one plan executed over path, descriptor (close_desc 0/1), virtual I/O, embedded-at-offset (read and write) and FIFO transports on the simulated OS: transcripts, stores and descriptor ownership compared', '3 C14'),
+})
 PENDING = {p: 'check designed in DESIGN.md section 3 but not built yet in this revision (to be claimed when its profile exists)' for p in
-           ['C07', 'C08', 'C09', 'C12', 'C13', 'C14', 'C17', 'C18', 'C19']}
+           ['C12', 'C13', 'C17', 'C18']}
